@@ -68,6 +68,7 @@ def run_cli(argv):
     from hpl.cli import main
 
     out, err = io.StringIO(), io.StringIO()
+    armed = core.arm_call_limit()
     try:
         with contextlib.redirect_stdout(out), contextlib.redirect_stderr(err):
             rc = main(list(argv))
@@ -75,6 +76,8 @@ def run_cli(argv):
         rc = ('SystemExit', e.code)
     except BaseException as e:  # noqa
         rc = ('raised', type(e).__name__)
+    finally:
+        core.disarm_call_limit(armed)
     return rc, out.getvalue(), err.getvalue()
 
 
